@@ -73,7 +73,10 @@ class TranslatorPython(Translator):
                     (1 << expr.size) - 1
                 )
         elif expr.op == "parity":
-            return "(%s & 0x1)" % self.from_expr(expr.args[0])
+            # 1 if the low byte has an even number of bits set
+            # (bit n of 0x9669 is the even parity of the nibble n)
+            arg = self.from_expr(expr.args[0])
+            return "((0x9669 >> ((%s ^ (%s >> 4)) & 0xf)) & 0x1)" % (arg, arg)
         elif expr.op == "==":
             return self.from_expr(
                 ExprCond(expr.args[0] - expr.args[1], ExprInt(0, 1), ExprInt(1, 1))
